@@ -186,3 +186,13 @@ package logx
 //@   prop C19
 //@   requires l != nil
 //@   ensures [recorded-name-else-from-rule] (len(l.backup) > 0 ==> result == l.backup && calls(BackupFilename) == 0) && (len(l.backup) == 0 ==> calls(l.rule.BackupFilename) == 1 && result == ret(BackupFilename))
+
+// writeJson: a record is encoded into bytes of its own (the encoder's result, extended by the newline - never a
+// buffer shared with other records: the rotating writer queues the slice without copying it) and written once.
+//@ func writeJson
+//@   prop C19
+//@   opaque Println
+//@   let content = ret(json.Marshal, 0)
+//@   ensures [encode-error-not-written] ret(json.Marshal, 1) != nil ==> calls(Write) == 0
+//@   ensures [own-bytes-written-once] ret(json.Marshal, 1) == nil && writer != nil ==> calls(writer.Write) == 1 && len(arg(writer.Write, 0)) == len(content) + 1 && arg(writer.Write, 0)[len(content)] == 10 && (arg(writer.Write, 0).arr == content.arr || fresh(arg(writer.Write, 0)))
+//@   ensures [encodes-the-record] calls(json.Marshal, info) == 1
